@@ -60,6 +60,9 @@ SPECS = [
      "mode": "imm"},
     # the generator member (events of generator objects driven by the gen* operations are don't-care)
     {"name": "ga>u", "sels": [_c("ga", [_cap("u", "m0", 1)])], "mode": "imm"},
+    # two probes that use the SAME capture name for different variables of fa
+    {"name": "fa>u as s0", "sels": [_c("fa", [_cap("u", "s0", 1)])], "mode": "imm"},
+    {"name": "fa>w as s0", "sels": [_c("fa", [_cap("w", "s0", 1)])], "mode": "imm"},
 ]
 GEN_VALUE = 50000  # values bound by generator objects of the gen* operations are >= this
 
